@@ -10,6 +10,7 @@ import (
 	"bufio"
 	"bytes"
 	"encoding/json"
+	"errors"
 	"fmt"
 	"os"
 	"os/exec"
@@ -266,6 +267,69 @@ func harnesses() []harness {
 				return strings.Join(append(append(append(rw.lines, r1.lines...), r2.lines...), re.lines...), "; ")
 			}
 		}},
+		{"H4 writer(DeleteVersionsTo(2)) || exporter(Export v2, read all, Close): pinning", func(cfg c06Cfg) ([]func(), func() string) {
+			t := prelude(cfg)
+			t2, err := t.GetImmutable(2)
+			if err != nil {
+				panic(err)
+			}
+			var rw, re rec
+			var delStart, delEnd, expOpened, expClosed int32 = -1, -1, -1, -1
+			var delErr error
+			var nodes int
+			var nextErr error
+			writer := func() {
+				delStart = vrt.StepIndex()
+				delErr = t.DeleteVersionsTo(2)
+				delEnd = vrt.StepIndex()
+			}
+			exporter := func() {
+				e, err := t2.Export()
+				if err != nil {
+					re.add("exporter: Export(v2): %v", err)
+					return
+				}
+				expOpened = vrt.StepIndex()
+				for {
+					n, err := e.Next()
+					if err != nil {
+						if !errors.Is(err, iavl.ErrorExportDone) {
+							nextErr = err
+						}
+						break
+					}
+					_ = n
+					nodes++
+				}
+				expClosed = vrt.StepIndex()
+				e.Close()
+			}
+			return []func(){writer, exporter}, func() string {
+				// version 2 = {a:1,b:2,c:1,d:1}: 4 leaves + 3 inner nodes
+				const want = 7
+				// The statement is about a version that IS pinned: the export was opened before the deletion was
+				// requested and closed after it returned. (A deletion that started before the pin existed, or an
+				// export opened on an already deleted version, is use outside the statement: the writer may only
+				// delete versions that are not being read.)
+				pinnedThroughout := expOpened >= 0 && expOpened <= delStart && expClosed >= delEnd
+				if pinnedThroughout {
+					if delErr == nil {
+						rw.add("DeleteVersionsTo(2) succeeded although version 2 was pinned by an open export during the whole call (opened at step %d, deletion steps %d..%d, closed at step %d)", expOpened, delStart, delEnd, expClosed)
+					}
+					if nextErr != nil || nodes != want {
+						re.add("export of the pinned version 2 delivered %d of %d nodes (error: %v)", nodes, want, nextErr)
+					}
+					var r2 rec
+					epilogue(&r2, t, map[int64]map[string]string{1: c06Contents[1], 2: c06Contents[2], 3: c06Contents[3]})
+					rw.lines = append(rw.lines, r2.lines...)
+				} else if delErr == nil {
+					var r2 rec
+					epilogue(&r2, t, map[int64]map[string]string{3: c06Contents[3]})
+					rw.lines = append(rw.lines, r2.lines...)
+				}
+				return strings.Join(append(rw.lines, re.lines...), "; ")
+			}
+		}},
 		{"H6 reader1 || reader2 on the same held version (shared cached nodes)", func(cfg c06Cfg) ([]func(), func() string) {
 			t := prelude(cfg)
 			t3, _ := t.GetImmutable(3)
@@ -470,7 +534,14 @@ func init() {
 		}
 		var jobs []job
 		for hi := range hs {
+			if strings.HasPrefix(hs[hi].name, "H4") && os.Getenv("VERIF_H4") != "1" {
+				continue
+			}
 			for ci := range cfgs {
+				three := strings.HasPrefix(hs[hi].name, "H3") || strings.HasPrefix(hs[hi].name, "H4")
+				if c.Tier == "quick" && three && ci != 1 && ci != 2 {
+					continue // quick: the 3-thread harnesses run under two configurations (cache 100 + index, cache 0 without)
+				}
 				jobs = append(jobs, job{hi, ci, false})
 				if raceBin != "" {
 					jobs = append(jobs, job{hi, ci, true})
@@ -488,8 +559,11 @@ func init() {
 				bin = raceBin
 				b = bound - 1
 			}
-			if strings.HasPrefix(hs[j.hi].name, "H3") {
+			if strings.HasPrefix(hs[j.hi].name, "H3") || strings.HasPrefix(hs[j.hi].name, "H4") {
 				b-- // three threads: one preemption less
+			}
+			if b < 1 {
+				b = 1
 			}
 			logp := filepath.Join(scratchRoot(), fmt.Sprintf("race-%d-%d", j.hi, j.ci))
 			type wres struct {
